@@ -142,6 +142,11 @@ pub enum RecSpec {
 pub struct RecCase {
     pub value: RecSpec,
     pub payment: Option<Vec<QuoteSpec>>,
+    /// Some(k): right before this value is encoded, the same thread tries to encode a record of kind
+    /// k % 4 (a paid kind) whose proof holds a quote dated before the epoch, which cannot be serialised
+    /// (an encode that fails half-way must leave nothing behind for the next one)
+    #[serde(default)]
+    pub after_failed_encode: Option<u8>,
 }
 
 /// mirror of `Scratchpad`'s (private) fields in declaration order = its msgpack layout
@@ -319,6 +324,24 @@ pub fn rec_spec_strategy() -> BoxedStrategy<RecSpec> {
     .boxed()
 }
 
+/// Try to encode a paid record (kind chosen by `k`) whose proof holds a quote dated one second before
+/// the Unix epoch: serde cannot serialise that `SystemTime`, so the encode fails after the tag and part
+/// of the body have been produced. Returns true if it failed (as it must).
+pub fn encode_that_fails(k: u8) -> bool {
+    use ant_protocol::storage::{try_serialize_record, RecordKind};
+    let mut q = gq(0, 0).build_signed();
+    q.timestamp = std::time::SystemTime::UNIX_EPOCH - std::time::Duration::from_secs(1);
+    let proof = ant_evm::ProofOfPayment { peer_quotes: vec![(ant_evm::EncodedPeerId::from(gq(0, 0).signer()), q)] };
+    let chunk = Chunk::new(Bytes::from_static(b"poison"));
+    let r = match k % 4 {
+        0 => try_serialize_record(&(proof, chunk), RecordKind::ChunkWithPayment),
+        1 => try_serialize_record(&(proof, chunk), RecordKind::ScratchpadWithPayment),
+        2 => try_serialize_record(&(proof, chunk), RecordKind::TransactionWithPayment),
+        _ => try_serialize_record(&(proof, chunk), RecordKind::RegisterWithPayment),
+    };
+    r.is_err()
+}
+
 pub fn rec_case_strategy() -> BoxedStrategy<RecCase> {
     (
         rec_spec_strategy(),
@@ -327,7 +350,8 @@ pub fn rec_case_strategy() -> BoxedStrategy<RecCase> {
             3 => proptest::collection::vec(quote_strategy(ED_KEYS), 0..=5).prop_map(Some),
         ],
     )
-        .prop_map(|(value, payment)| RecCase { value, payment })
+        .prop_flat_map(|(value, payment)| (Just(value), Just(payment), prop_oneof![3 => Just(None), 1 => any::<u8>().prop_map(Some)]))
+        .prop_map(|(value, payment, after_failed_encode)| RecCase { value, payment, after_failed_encode })
         .boxed()
 }
 
@@ -791,7 +815,7 @@ pub fn all_err_specs() -> Vec<ErrSpec> {
 pub fn catalogue() -> Vec<(String, GoldenItem)> {
     let mut out: Vec<(String, GoldenItem)> = vec![];
     let mut rec = |name: &str, value: RecSpec, payment: Option<Vec<QuoteSpec>>| {
-        out.push((format!("rec-{name}"), GoldenItem::Rec(RecCase { value, payment })));
+        out.push((format!("rec-{name}"), GoldenItem::Rec(RecCase { value, payment, after_failed_encode: None })));
     };
     let proofs: Vec<(&str, Vec<QuoteSpec>)> = vec![("proof0", vec![]), ("proof1", vec![gq(0, 0)]), ("proof3", vec![gq(1, 1), gq(2, 2), gq(3, 3)])];
 
